@@ -18,6 +18,7 @@ import (
 	"runtime/debug"
 	"strings"
 	"syscall"
+	"unsafe"
 
 	"verif/sim/choice"
 	"verif/sim/memfs"
@@ -113,6 +114,7 @@ type Stats struct {
 	Faults     map[string]int
 	Kills      int
 	ActorSteps int
+	Accesses   int
 	Probes     map[string]int
 }
 
@@ -150,6 +152,10 @@ type World struct {
 	// OnOp, when set, is called by the scheduler for every task operation it resumes, with the decision taken.
 	OnOp   func(t *Task, op *Op, d Decision)
 	nextID int
+	shadow map[unsafe.Pointer]*shadow
+	raceOn bool
+	// Races are the data races detected so far (R6 builds with RaceOn).
+	Races []Race
 }
 
 type chanReg struct {
